@@ -32,7 +32,11 @@ def topics_scenario(max_maps, planted=None):
     def scenario(e):
         n = e.choice('nmaps', max_maps + 1)
         addr = 'tcp://h:5550'
-        ws = lambda k: WSP[e.choice(k, len(WSP))]
+        style = e.choice('ws_style', len(WSP)); odd = e.choice('ws_odd_joint', 6)      # one whitespace style everywhere, plus one joint that differs
+        cnt = [0]
+        def ws(k):
+            cnt[0] += 1
+            return WSP[(style + 1) % len(WSP)] if cnt[0] == odd else WSP[style]
         text = SymStr.of(addr) + ws('w_addr')
         want = []
         for i in range(n):
@@ -79,14 +83,19 @@ VALS = [('flag', True, ''), ('no', False, None), ('=1', 1, '=1'), ('= 2.5 ', 2.5
         ('="x y"', 'x y', '="x y"'), ('=[1, 2]', [1, 2], '=[1,2]'), ('=640x480', '640x480', '=640x480')]
 
 
-def options_scenario(max_opts, planted=None):
+def options_scenario(max_opts, planted=None, vals=None):
+    VALS_ = vals or VALS
     def scenario(e):
         shim = types.SimpleNamespace(re_valid_option_name=SymRegex(Filter.re_valid_option_name))
         real_getval = FM.json_getval
         parse_options = with_globals(Filter.parse_options, Filter=shim, json_getval=lambda v: real_getval(v.plain()) if isinstance(v, SymStr) and v.plain() is not None else real_getval(v))
         n = e.choice('nopts', max_opts + 1)
         base = ['rtsp://host/path', 'file:///a b/c.mp4', 'tcp://*:5550;a>b'][e.choice('base', 3)]
-        ws = lambda k: WSP[e.choice(k, len(WSP))]
+        style = e.choice('ws_style', len(WSP)); odd = e.choice('ws_odd_joint', 6)
+        cnt = [0]
+        def ws(k):
+            cnt[0] += 1
+            return WSP[(style + 1) % len(WSP)] if cnt[0] == odd else WSP[style]
         text = SymStr.of(base) + ws('w0')
         want = {}
         names = []
@@ -95,7 +104,7 @@ def options_scenario(max_opts, planted=None):
             # the grammar reserves the prefix "no-": a name must not itself start with it (and names are distinct)
             for other in names: e.assume(name != other)
             names.append(name)
-            label, val, _ = VALS[e.choice(f'val{i}', len(VALS))]
+            label, val, _ = VALS_[e.choice(f'val{i}', len(VALS_))]
             if label == 'no': seg = SymStr.of('no-') + name
             elif label == 'flag': seg = name
             else: seg = name + ws(f'wv{i}') + label
@@ -186,10 +195,12 @@ def grammar(e, cname):
         cfg['outputs'] = 'tcp://*'
         if e.choice('misc', 2): cfg['maxfps'] = 2
     elif cname == 'ImageOut':
+        struct = None
         cfg['outputs'] = pick(e, 'io', ['file:///tmp/o_%d.jpg', 'file:///tmp/o.png!quality=90;cam', ['file:///tmp/a.jpg;x', 'file:///tmp/b.png ! compression = 3 ; y'], 'file:///tmp/a.jpg;x , file:///tmp/b.png'])
     elif cname == 'MQTTOut':
         form = e.choice('mform', 2)
         maps = [pick(e, f'm{i}', ['topic', 'topic2/image > t2f', '/data', 'tt/data/sub > other ! qos=0 ! retain=true', '/image']) for i in range(k)]
+        if len(set(maps)) != len(maps): raise PathAbort
         if form == 0: cfg['outputs'] = 'mqtt://host:1234/base/ ; ' + ' ; '.join(maps)
         else: cfg.update(broker_host='host', broker_port=1234, base_topic='base/', mappings=pick(e, 'msep', [', ', ' , ']).join(maps))
         struct = None
@@ -257,12 +268,12 @@ def harnesses(tier):
     fn1 = ['filter.Filter.parse_topics', 'filter.Filter.parse_options', 'filter.Filter.re_valid_option_name (translated)', 'utils.json_getval']
     fn2 = ['normalize_config of Filter, Util, VideoIn, VideoOut, Recorder, ImageIn, ImageOut, MQTTOut, REST, Webvis', 'utils.split_commas_maybe']
     return [
-        Harness('c11.parse_topics', topics_scenario(2 if q else 3), twin=topics_scenario(1, planted=True),
-                bounds={'mappings': '0-2' if q else '0-3', 'forms': 'a, a>b, >b, a>, (empty)', 'topic names': '1-2 symbolic characters each (printable ASCII minus whitespace and ! , ; > )',
-                        'whitespace': 'none / space / space-tab-space at every joint'}, functions=fn1, stubs=['SymStr (symbolic characters); hash by length so that set()/dict compare by solver-decided equality'],
+        Harness('c11.parse_topics', topics_scenario(3), twin=topics_scenario(1, planted=True),
+                bounds={'mappings': '0-3', 'forms': 'a, a>b, >b, a>, (empty)', 'topic names': '1-2 symbolic characters each (printable ASCII minus whitespace and ! , ; > )',
+                        'whitespace': 'one of 3 styles at every joint plus one joint with a different style (symbolic position)'}, functions=fn1, stubs=['SymStr (symbolic characters); hash by length so that set()/dict compare by solver-decided equality'],
                 assumptions=['valid input: pairwise distinct sources and destinations'], budget_s=900),
-        Harness('c11.parse_options', options_scenario(2), twin=options_scenario(1, planted=True),
-                bounds={'options': '0-2', 'option names': '1-2 symbolic characters ([A-Za-z_][A-Za-z0-9_]?)', 'values': [v[0] for v in VALS], 'whitespace': 'symbolic choice at every joint'},
+        Harness('c11.parse_options', options_scenario(2, vals=VALS[:2] + VALS[3:4] + VALS[6:8] if q else VALS), twin=options_scenario(1, planted=True),
+                bounds={'options': '0-2', 'option names': '1-2 symbolic characters ([A-Za-z_][A-Za-z0-9_]?)', 'values': [v[0] for v in (VALS[:2] + VALS[3:4] + VALS[6:8] if q else VALS)], 'whitespace': 'one of 3 styles at every joint plus one differing joint'},
                 functions=fn1, stubs=['SymStr / SymRegex'], assumptions=['option values are concrete JSON samples'], budget_s=900),
         Harness('c11.password_bang', password_scenario, bounds={'passwords with !': 5, 'option tails': 3}, functions=fn1, stubs=[], assumptions=[], budget_s=60),
         Harness('c11.normalize', normalize_scenario(ALL), twin=normalize_scenario(['Filter'], planted=True),
